@@ -12,6 +12,7 @@ structure St where
   level : Nat
   zone : Zone
   cache : TimeCache          -- of the main thread
+  mainTid : Option TidState  -- tid cache of the main thread (`none`: not looked at yet)
   env : List (List String)   -- pending environment lines, split into words (without the `<`)
 
 def ofBytes (bs : Driver.Bytes) : MuduoVerif.LogStream.Bytes := bs.map (·.toNat)
@@ -101,12 +102,28 @@ def clockArg (s : St) (c : String) : Option (Option Int) :=   -- some none: not 
       | _ => some none
     | none => none
 
-/-- runs one request on the thread the line says; returns the new main-thread cache and the output lines -/
+def isWhere (wh : String) : Bool := wh = "main" ∨ wh = "thread" ∨ wh = "fork" ∨ wh = "raw0" ∨ wh = "raw1"
+
+/-- runs one request on the thread the line says (`main`, a `muduo::Thread`, the child of a `fork()`, a thread made
+with `pthread_create` whose first muduo call is the log statement (`raw0`) / that called `CurrentThread::tid()`
+before (`raw1`)); returns the new main-thread caches and the output lines.  `< ptid N`: kernel id of the driver's
+main thread; `< asserts 1`: the implementation was built without NDEBUG. -/
 def emit (s : St) (wh : String) (r : LogReq) (fatal : Bool) : St × List String :=
-  let cache := if wh = "thread" then TimeCache.fresh else s.cache
-  let res := logLine s.zone cache r
-  let s' := if wh = "main" then { s with cache := res.1 } else s
-  (s', ["out " ++ hex res.2] ++ (if fatal then ["aborted"] else []))
+  let ptid : Int := match envGet s "ptid" with
+    | some [p] => p.toInt?.getD 0
+    | _ => 0
+  let assertsOn : Bool := envGet s "asserts" == some ["1"]
+  let mainT : TidState := s.mainTid.getD (entryState ptid .main)
+  let cache := if wh = "main" ∨ wh = "fork" then s.cache else TimeCache.fresh
+  let t : TidState :=
+    if wh = "main" then mainT
+    else if wh = "thread" then entryState r.tid .muduoThread
+    else if wh = "fork" then entryState r.tid (.forkChild ptid mainT)
+    else entryState r.tid (.foreign (wh = "raw1"))
+  let res := logLine s.zone cache t r
+  let s' := if wh = "main" then { s with cache := res.cache, mainTid := some res.tid } else s
+  if assertsOn ∧ ¬ res.asserts then (s', ["out-none", "aborted"])
+  else (s', ["out " ++ hex res.text] ++ (if fatal then ["aborted"] else []))
 
 def exec (s : St) (ws : List String) : St × List String :=
   let bad := (s, ["bad-op"])
@@ -130,7 +147,7 @@ def exec (s : St) (ws : List String) : St × List String :=
     | some v => ({ s with zone := some v }, ["ok"])
     | none => bad
   | ["line", wh, ctor, lvl, clk, err, file, lineno, func, "msg", msg] =>
-    if ¬ (wh = "main" ∨ wh = "thread" ∨ wh = "fork") then bad else
+    if ¬ isWhere wh then bad else
     if ¬ (ctor = "c2" ∨ ctor = "c3" ∨ ctor = "c4" ∨ ctor = "cb" ∨ ctor = "ct") then bad else
     let fileB : Option MuduoVerif.LogStream.Bytes :=
       match file.splitOn ":" with
@@ -163,7 +180,7 @@ def exec (s : St) (ws : List String) : St × List String :=
         | _ => (s, ["bad-env"])
     | _, _, _, _, _, _, _ => bad
   | ["macro", wh, m, clk, err, msg] =>
-    if ¬ (wh = "main" ∨ wh = "thread" ∨ wh = "fork") then bad else
+    if ¬ isWhere wh then bad else
     match inRange 0 7 m, clockArg s clk, inRange 0 4095 err, bytesArg msg with
     | some mi, some now, some e, some mb =>
       let mN := mi.toNat
@@ -201,7 +218,7 @@ def exec (s : St) (ws : List String) : St × List String :=
 
 def main (lines : Array String) : IO Unit := do
   let mut s : St := { buf := mkBuf kSmallBuffer, large := false, level := levelINFO, zone := none,
-                      cache := TimeCache.fresh, env := [] }
+                      cache := TimeCache.fresh, mainTid := none, env := [] }
   let out ← IO.getStdout
   for line in lines do
     if line.startsWith "<" then
